@@ -327,6 +327,9 @@ def guard_atoms(repo: Repo, f: Func, cfg: CFG):
                 out["ci"].append((c, "F"))
             if "impl" in roles:
                 out["impl"].append((c, "T"))
+        # the implementation test written out in place: `sys.implementation.name == "cpython"` (enabled on the true edge of ==)
+        if isinstance(e, ast.Compare) and len(e.ops) == 1 and isinstance(e.ops[0], (ast.Eq, ast.NotEq, ast.Is, ast.IsNot)) and any(isinstance(x, ast.Attribute) and x.attr == "implementation" for x in ast.walk(e)) and any(isinstance(x, ast.Constant) and x.value == "cpython" for x in ast.walk(e)):
+            out["impl"].append((c, "T" if isinstance(e.ops[0], (ast.Eq, ast.Is)) else "F"))
         ch = attr_chain(e) if isinstance(e, ast.Attribute) else None
         if ch == ["state()", "active"]:
             out["active"].append((c, "T"))
